@@ -57,6 +57,12 @@ def gen_shape(r, tid, kinds=('struct', 'enum'), maxf=4, ftgen=None, min_variants
     ftgen = ftgen or (lambda r, i: ft_A(0 if r.random() < same_k else i))
     def fields(n, named):
         names = r.sample(FIELD_NAMES, n) if named else [None] * n
+        if named and n >= 2 and r.random() < 0.25:
+            # a sibling that differs by a leading underscore only (prefixed pattern bindings must stay apart)
+            i, j = r.sample(range(n), 2)
+            base = names[i][2:] if names[i].startswith('r#') else names[i]
+            if ('_' + base) not in names:
+                names[j] = '_' + base
         return [Fld(nm, ftgen(r, i)) for i, nm in enumerate(names)]
     if kind == 'struct':
         shape = pick(r, ['named', 'unnamed', 'named', 'unnamed', 'unit'] if unit_ok else ['named', 'unnamed'])
@@ -72,9 +78,24 @@ def gen_shape(r, tid, kinds=('struct', 'enum'), maxf=4, ftgen=None, min_variants
     return Ty(tid, 'enum', vs)
 
 # ------------------------------------------------------------------ Rust text helpers
+def attr_groups(owner):
+    """the item's metas distributed over one or more #[educe(...)] attributes (decided once per item)"""
+    if '_groups' not in owner.at:
+        metas = list(owner.at.get('_metas', [])) + list(owner.at.get('_noise', []))
+        r = owner.at.get('_r')
+        groups = []
+        if r is not None:
+            r.shuffle(metas)
+        for m in metas:
+            if groups and r is not None and r.random() < 0.6:
+                groups[-1].append(m)
+            else:
+                groups.append([m])
+        owner.at['_groups'] = groups
+    return owner.at['_groups']
+
 def fattr_text(f):
-    metas = [m for m in f.at.get('_metas', [])]
-    return ''.join('#[educe(%s)] ' % m for m in metas)
+    return ''.join('#[educe(%s)] ' % ', '.join(g) for g in attr_groups(f))
 
 def fields_decl(v):
     if v.shape == 'unit':
@@ -106,7 +127,7 @@ def type_decl_inner(t):
     elif t.kind == 'enum':
         vs = []
         for v in t.variants:
-            va = ''.join('#[educe(%s)] ' % m for m in v.at.get('_metas', []))
+            va = ''.join('#[educe(%s)] ' % ', '.join(g) for g in attr_groups(v))
             vs.append('%s%s%s%s' % (va, v.name, fields_decl(v), '' if v.discr is None else ' = %d' % v.discr))
         out.append('pub enum T%s { %s }' % (gen_params(t), ', '.join(vs)))
     else:
@@ -180,6 +201,7 @@ class Suite:
         raise NotImplementedError
 
 HOSTILE = [False]
+NOISE = [None]
 HOSTILE_ITEMS = '''
     // names at the derive site that shadow everything the generated code might be tempted to write unqualified
     #[allow(non_camel_case_types)] pub struct Option; pub struct Result; pub struct Ordering; pub struct Clone; pub struct Copy;
@@ -201,7 +223,10 @@ def module(t, body, nvals):
     """the educed type lives in its own module with warnings denied: anything the derive emits that rustc
     warns about, or that fails to compile, is attributed to that module; with HOSTILE the module also
     shadows the prelude (C19)"""
-    ty = ('pub mod ty {\n    #![deny(warnings)]\n    #![allow(dead_code, unused_imports)]\n    use crate::support::{A, B, C, Good, Bad, m_eq, m_cmp, m_pcmp, m_hash, m_fmt, m_clone, m_clone_c, m_into, g_eq, g_cmp, g_pcmp, g_hash, g_fmt};\n'
+    if NOISE[0] is not None and not getattr(t, '_noised', False):
+        t._noised = True
+        add_noise(t, NOISE[0][1], NOISE[0][0])
+    ty = ('pub mod ty {\n    #![deny(warnings)]\n    #![allow(dead_code, unused_imports, non_snake_case)]\n    use crate::support::{A, B, C, Good, Bad, m_eq, m_cmp, m_pcmp, m_hash, m_fmt, m_clone, m_clone_c, m_into, g_eq, g_cmp, g_pcmp, g_hash, g_fmt};\n'
           '    use educe::Educe;\n%s%s\n}\npub use ty::T;' % (HOSTILE_ITEMS if HOSTILE[0] else '', type_decl(t)))
     return ('// %s\n#![allow(dead_code, unused_variables, unused_mut, unused_imports, non_shorthand_field_patterns, clippy::all)]\n'
             'use crate::support::*;\nuse core::cmp::Ordering;\n%s\n%s\n' % (t.id, ty, body))
@@ -259,6 +284,8 @@ class HashSuite(Suite):
                     f.at['h'] = 'method'; f.at['_metas'] = [sp_method(r, 'Hash', 'm_hash')]
                 else:
                     f.at['h'] = 'plain'
+                    if r.random() < 0.25:
+                        f.at['_metas'] = [pick(r, ['Hash = true', 'Hash(ignore = false)', 'Hash(ignore(false))'])]
         arms = []
         for vi, v in enumerate(t.variants):
             st = []
@@ -305,7 +332,12 @@ class OrdSuite(Suite):
             if c < 0.5:
                 ds = r.sample([-170, -5, -1, 0, 1, 2, 3, 100, 127, 128, 200, 255, 1000, 70000], len(t.variants))
                 all_unit = all(v.shape == 'unit' for v in t.variants)
-                rp = pick(r, ['i64', 'i32', 'isize', 'i128' if False else 'i64'])
+                rp = pick(r, ['i64', 'i32', 'isize', 'i64'])
+                big = r.random()
+                if big < 0.2:
+                    ds = r.sample([0, 1, 5, 2 ** 63 - 1, 2 ** 63, 2 ** 63 + 7, 2 ** 64 - 1], len(t.variants)); rp = 'u64'
+                elif big < 0.35:
+                    ds = r.sample([-2 ** 100, -2 ** 63 - 1, -1, 0, 3, 2 ** 63, 2 ** 64 + 1, 2 ** 126], len(t.variants)); rp = 'i128'
                 if all_unit and r.random() < 0.5:
                     rp = None
                     if any(d < 0 for d in ds):
@@ -321,7 +353,9 @@ class OrdSuite(Suite):
                     if v.discr is not None:
                         cur = v.discr
                     eff.append(cur); cur += 1
-                if len(set(eff)) != len(eff) or (rp is None and any(v.shape != 'unit' for v in t.variants)):
+                lim = {'u64': (0, 2 ** 64 - 1), 'i64': (-2 ** 63, 2 ** 63 - 1), 'i32': (-2 ** 31, 2 ** 31 - 1), 'isize': (-2 ** 63, 2 ** 63 - 1),
+                       'i128': (-2 ** 127, 2 ** 127 - 1), None: (-2 ** 63, 2 ** 63 - 1)}[rp]
+                if len(set(eff)) != len(eff) or any(e < lim[0] or e > lim[1] for e in eff) or (rp is None and any(v.shape != 'unit' for v in t.variants)):
                     for v in t.variants:
                         v.discr = None
             elif c < 0.7:
@@ -330,7 +364,7 @@ class OrdSuite(Suite):
                     reprs.append('#[repr(C, u8)]')
                 t.pre_attrs.append(pick(r, reprs))
         for v in t.variants:
-            ranks = r.sample(range(-3, 9), len(v.fields))
+            ranks = r.sample(range(-6, 7), len(v.fields))
             for i, f in enumerate(v.fields):
                 c = r.random()
                 f.at['o'] = 'plain'; f.at['rank'] = None
@@ -341,6 +375,8 @@ class OrdSuite(Suite):
                 elif c < 0.45 and not f.ft.native:
                     f.at['o'] = 'method'
                     metas.append(('method', meth))
+                if f.at['o'] == 'plain' and not metas and r.random() < 0.15:
+                    metas.append(('noignore', None))
                 if f.at['o'] != 'ignore' and r.random() < 0.5:
                     f.at['rank'] = ranks[i]
                     metas.append(('rank', ranks[i]))
@@ -352,6 +388,8 @@ class OrdSuite(Suite):
                         for k, val in metas:
                             if k == 'ignore':
                                 ps.append('ignore')
+                            elif k == 'noignore':
+                                ps.append(pick(r, ['ignore = false', 'ignore(false)']))
                             elif k == 'method':
                                 ps.append(pick(r, ['method(%s)', 'method = %s', 'method = "%s"']) % val)
                             else:
@@ -604,10 +642,11 @@ class CloneSuite(Suite):
 DEF_TYPES = [  # (rust type, [(attribute value text, expected expr)], plain default expr)
     ('u8', [('5', '5u8'), ('b\'a\'', "b'a'"), ('0x10', '16u8'), ('7u8', '7u8')], '0u8'),
     ('u16', [('300', '300u16'), ('9u16', '9u16')], '0u16'),
-    ('i64', [('12', '12i64'), ('1_000', '1000i64')], '0i64'),
+    ('i64', [('12', '12i64'), ('1_000', '1000i64'), ('-12', '-12i64')], '0i64'),
+    ('i8', [('-7', '-7i8'), ('5', '5i8')], '0i8'),
     ('u64', [('3u8', '3u64')] if False else [('3', '3u64')], '0u64'),
-    ('f64', [('1.5', '1.5f64'), ('2', '2f64'), ('2.5f64', '2.5f64')], '0f64'),
-    ('f32', [('1.5', '1.5f32')], '0f32'),
+    ('f64', [('1.5', '1.5f64'), ('2', '2f64'), ('2.5f64', '2.5f64'), ('-3', '-3f64'), ('-0.5', '-0.5f64')], '0f64'),
+    ('f32', [('1.5', '1.5f32'), ('-1.5', '-1.5f32')], '0f32'),
     ('bool', [('true', 'true'), ('false', 'false')], 'false'),
     ('char', [("'x'", "'x'")], "'\\0'"),
     ("&'static str", [('"hi"', '"hi"')], '""'),
@@ -618,7 +657,7 @@ DEF_TYPES = [  # (rust type, [(attribute value text, expected expr)], plain defa
     ('Option<u8>', [('Some(3)', 'Some(3u8)'), ('None', 'None')], 'None'),
 ]
 def sp_default_value(r, val):
-    simple = re.match(r'^[\w.\'"]+$', val) is not None and not val[0].isalpha() or val in ('true', 'false')
+    simple = re.match(r'^-?[\w.\'"]+$', val) is not None and not val.lstrip('-')[0].isalpha() or val in ('true', 'false')
     forms = ['Default(expression = %s)' % val, 'Default(expression(%s))' % val, 'Default(expr = %s)' % val, 'Default(expr(%s))' % val]
     if simple or val.startswith("b'") or val.startswith('"') or val.startswith("'"):
         forms += ['Default = %s' % val] * 3
@@ -924,6 +963,33 @@ class BoundsSuite(Suite):
 
 SUITES['bounds'] = BoundsSuite()
 
+def add_noise(t, r, suite):
+    """educe one more trait with attributes of its own on the same items"""
+    if suite in ('bounds', 'union', 'default') and suite != 'default':
+        return
+    if t.kind == 'union':
+        return
+    noise = 'Hash' if suite == 'debug' else 'Debug'
+    if any(a.split('(')[0].strip() == noise or noise in [x.strip() for x in a.split(',')] for a in t.type_attrs):
+        return
+    all_a = all(f.ft.rust.startswith(('A<', 'C<')) for v in t.variants for f in v.fields)
+    if noise == 'Hash' and not all_a:
+        return
+    if r.random() < 0.45:
+        return
+    t.type_attrs = t.type_attrs + [noise] if r.random() < 0.5 else [noise] + t.type_attrs
+    for v in t.variants:
+        v.at['_r'] = r
+        for f in v.fields:
+            f.at['_r'] = r
+            c = r.random()
+            if c < 0.3:
+                f.at['_noise'] = [pick(r, ['%s(ignore)', '%s = false', '%s(ignore = true)']) % noise]
+            elif c < 0.4 and noise == 'Debug' and v.shape == 'named':
+                f.at['_noise'] = ['Debug(name = zz%d)' % r.randrange(9)]
+            elif c < 0.5:
+                f.at['_noise'] = ['%s(ignore = false)' % noise]
+
 # ------------------------------------------------------------------ build & run
 MAIN_HEAD = '#![allow(clippy::all)]\nmod support;\n'
 
@@ -990,6 +1056,7 @@ def run(pid, suites, tier, seed, n=None, hostile=False, only_ops=None):
                 res, k = None, 0
                 while res is None:
                     r = random.Random('k2-%s-%d-%d-%d' % (S.name, seed, i, k))
+                    NOISE[0] = (S.name, random.Random('k2n-%s-%d-%d-%d' % (S.name, seed, i, k)))
                     res = S.make(r, tid)
                     k += 1
                 t, src, meta = res
